@@ -2081,7 +2081,7 @@ public:
       return interval_t::bottom();
     } else {
       if (!v.get_type().is_array()) {
-        return m_base_dom.at(v);
+        return m_base_dom[v];
       } else {
         return interval_t::top();
       }
